@@ -1,6 +1,7 @@
 (* C02 -- Compiled execution matches the language's defined semantics.
    Theorems about the definitional evaluator's kernels (the oracle of the translation
    validation); the tie itself is the per-program comparison done by tools/props/c02.py. *)
+From Coq Require Import String.
 From Aelys Require Import Base.Tactics Model.Lang Model.Eval Proofs.EvalProofs.
 
 (* integer arithmetic is Z arithmetic reduced to the 48-bit two's-complement range *)
@@ -25,3 +26,55 @@ Proof. exact div_truncates. Qed.
 Theorem C02_div_by_zero : forall a : Z,
   int_binop BDiv a 0 = RErr EDivZero /\ int_binop BMod a 0 = RErr EDivZero.
 Proof. exact div_by_zero. Qed.
+
+(* ranges: a for-loop over a range is, for EVERY body, environment, state and fuel, the same
+   computation as a for-each over the list of the range's values ... *)
+Theorem C02_for_is_foreach_over_range : forall (fuel : nat) depth env st x i hi incl step b,
+  exec_for fuel depth env st x i hi incl step b
+  = exec_foreach fuel depth env st x (map VInt (range_list fuel i hi incl step)) b.
+Proof. exact exec_for_is_foreach. Qed.
+
+(* ... and that list is the arithmetic range: ascending exclusive [lo, lo+s, ..) below hi, *)
+Theorem C02_range_up_exclusive : forall (n : nat) fuel lo hi step,
+  (0 < step)%Z -> (n < fuel)%nat ->
+  (-140737488355328 <= lo)%Z -> (lo + Z.of_nat n * step < 140737488355328)%Z ->
+  (lo + (Z.of_nat n - 1) * step < hi <= lo + Z.of_nat n * step)%Z ->
+  range_list fuel lo hi false step = map (fun k => (lo + Z.of_nat k * step)%Z) (seq 0 n).
+Proof. exact range_list_up_excl. Qed.
+
+(* descending inclusive lo, lo-s, .. down to the last value >= hi (the end value is visited
+   when it is hit exactly) *)
+Theorem C02_range_down_inclusive : forall (n : nat) fuel lo hi s,
+  (0 < s)%Z -> (n < fuel)%nat ->
+  (lo < 140737488355328)%Z -> (-140737488355328 <= lo - Z.of_nat n * s)%Z ->
+  (lo - Z.of_nat n * s < hi <= lo - (Z.of_nat n - 1) * s)%Z ->
+  range_list fuel lo hi true (- s) = map (fun k => (lo - Z.of_nat k * s)%Z) (seq 0 n).
+Proof. exact range_list_down_incl. Qed.
+
+(* short-circuit: when the left operand decides, the right one is not evaluated at all
+   (the state is the one left by the left operand) *)
+Theorem C02_and_short_circuit : forall fuel depth env st a b st1 va,
+  eval_expr fuel depth env st a = (st1, ROk va) -> truthy va = false ->
+  eval_expr (S fuel) depth env st (EAnd a b) = (st1, ROk va).
+Proof. exact and_short_circuit. Qed.
+Theorem C02_or_short_circuit : forall fuel depth env st a b st1 va,
+  eval_expr fuel depth env st a = (st1, ROk va) -> truthy va = true ->
+  eval_expr (S fuel) depth env st (EOr a b) = (st1, ROk va).
+Proof. exact or_short_circuit. Qed.
+
+(* parameters are copies: binding them only appends fresh cells, every cell the caller can see
+   keeps its value, and a later assignment to a fresh cell cannot touch an old one *)
+Theorem C02_params_are_fresh_cells : forall (ps : list (string * bool)) vs env st env' st',
+  bind_params ps vs env st = (env', st') ->
+  (forall l, (l < List.length (cells st))%nat -> nth l (cells st') VNull = nth l (cells st) VNull)
+  /\ (List.length (cells st) <= List.length (cells st'))%nat
+  /\ globals st' = globals st /\ objs st' = objs st /\ out st' = out st.
+Proof. exact bind_params_fresh. Qed.
+Theorem C02_assignment_is_local_to_its_cell : forall st l v j,
+  l <> j -> nth j (cells (set_cell st l v)) VNull = nth j (cells st) VNull.
+Proof. exact set_cell_other. Qed.
+
+Example C02_nonvacuous :
+  range_list 10 2 8 false 3 = [2; 5]%Z /\ range_list 10 10 0 true (-5) = [10; 5; 0]%Z
+  /\ range_list 10 10 1 true (-5) = [10; 5]%Z.
+Proof. vm_compute. repeat split; reflexivity. Qed.
